@@ -32,6 +32,8 @@ def cases(tier, rng):
         allp = allp[off::stride]
     for p in allp:
         out.append(("enum", p))
+    for p in enum.boundary_programs():
+        out.append(("boundary", p))
     n = 1500 if tier == "quick" else 40000
     for _ in range(n):
         src, _ = gen.random_program(rng.fork())
